@@ -12,7 +12,8 @@ def getyp0(dae: nDAE, y0: np.ndarray, t0):
     F0 = dae.F(t0, y0, p)
     DiffEqn, DiffVar = M.nonzero()
 
-    yp0 = np.zeros_like(y0)
+    # an integer-typed (or single-precision) y0 must not truncate the slope
+    yp0 = np.zeros_like(y0, dtype=np.result_type(y0.dtype, np.float64))
 
     # rows and columns of the sub-block, the right-hand side and the result must use one and the same ordering:
     # the differential equations need not be declared in the order of their state variables
@@ -48,7 +49,7 @@ def DaeIc(dae: nDAE, y0: np.ndarray, t0, rtol):
             res = norm(dY[nz_idx]/y[AlgVar][nz_idx])
             # week line search with affine invariant test
             lam = 1
-            ynew = y.copy()
+            ynew = y.astype(np.result_type(y.dtype, np.float64))  # a copy; an integer-typed y0 is not truncated
             for probe in range(3):
                 ynew[AlgVar] = y[AlgVar] + lam * dY
                 Fnew = F(ynew)
